@@ -123,17 +123,31 @@ pub enum G {
 }
 
 /// None = every family (C03, sanitizer subset).
+/// The pure observers (no follow-up operation of another family): what "the observer battery" means in the
+/// `observe_at` of C01, C04, C06, C07 and C12.
+const fn with_obs(own: G) -> [G; 9] {
+    [own, G::Query, G::Bytes, G::Text, G::Cmp, G::Hash, G::Iter, G::Uint, G::Conv]
+}
+static SC_C01: [G; 9] = with_obs(G::Arith);
+static SC_C04: [G; 9] = with_obs(G::Logic);
+static SC_C06: [G; 9] = with_obs(G::Rot);
+static SC_C07: [G; 9] = with_obs(G::Edit);
+static SC_C12: [G; 9] = with_obs(G::Conv);
+
+/// The families a property's own check looks through (first element = the property's own family, always run):
+/// the ones whose `observe_at` names the observer battery get the pure observers as well, never the follow-up
+/// operations of other families.
 pub fn scope_for(prop: &str) -> Option<&'static [G]> {
     match prop {
-        "C01" => Some(&[G::Arith]),
+        "C01" => Some(&SC_C01),
         "C02" => Some(&[G::Div]),
-        "C04" => Some(&[G::Logic]),
+        "C04" => Some(&SC_C04),
         "C05" => Some(&[G::Shift]),
-        "C06" => Some(&[G::Rot]),
-        "C07" => Some(&[G::Edit]),
+        "C06" => Some(&SC_C06),
+        "C07" => Some(&SC_C07),
         "C08" => Some(&[G::Slice]),
         "C11" => Some(&[G::Uint]),
-        "C12" => Some(&[G::Conv]),
+        "C12" => Some(&SC_C12),
         "C13" => Some(&[G::Bytes]),
         "C15" => Some(&[G::Text]),
         "C03" | "SANIT" => None,
@@ -142,7 +156,8 @@ pub fn scope_for(prop: &str) -> Option<&'static [G]> {
 }
 
 thread_local! {
-    /// scoped batteries reduce probe results to (len, bits) only: bytes / is_zero / hex / leading_zeros are other families
+    /// narrowly scoped batteries (no pure observers in scope) reduce probe results to (len, bits) only: bytes /
+    /// is_zero / hex / leading_zeros are other families
     static VISIBLE_ONLY: std::cell::Cell<bool> = const { std::cell::Cell::new(false) };
 }
 
@@ -152,12 +167,20 @@ struct B<'a, T: Subject> {
     fails: Vec<Fail>,
     calls: u64,
     scope: Option<&'static [G]>,
+    /// sampled "full" battery requested for this subject
+    full: bool,
+    /// set once the lite section is over: from here on only `full` subjects run everything, the others run the
+    /// property's own family alone
+    in_full: bool,
 }
 
 impl<'a, T: Subject> B<'a, T> {
     fn d<R: PartialEq + Debug>(&mut self, g: G, item: &str, f: impl Fn(&T) -> R) {
         if let Some(sc) = self.scope {
             if !sc.contains(&g) {
+                return;
+            }
+            if self.in_full && !self.full && sc.first() != Some(&g) {
                 return;
             }
         }
@@ -197,14 +220,16 @@ pub fn battery<T: Subject + AllPairs>(ctx: &mut Ctx, x: &T, model: &[bool], full
 /// `other`: compare against this vector instead of a fresh twin (metamorphic uses: two results that must be
 /// indistinguishable). `scope` None = every family.
 pub fn battery_scoped<T: Subject + AllPairs>(ctx: &mut Ctx, x: &T, model: &[bool], full: bool, scope: Option<&'static [G]>, other: Option<&T>) -> Vec<Fail> {
-    // a scoped battery is short: always run all of it
-    let full = (full || scope.is_some()) && !(ctx.lite_only && scope.is_none());
+    // a narrowly scoped battery (own family only) is short: always run all of it; one that includes the pure
+    // observers runs its own family always and the expensive observers on the sampled `full` subjects
+    let wide = scope.map_or(false, |sc| sc.contains(&G::Query));
+    let full = (full || (scope.is_some() && !wide)) && !(ctx.lite_only && scope.is_none());
     if let Some(sc) = scope {
         if sc.is_empty() {
             return vec![];
         }
     }
-    VISIBLE_ONLY.with(|v| v.set(scope.is_some()));
+    VISIBLE_ONLY.with(|v| v.set(scope.is_some() && !wide));
     let r = battery_inner(ctx, x, model, full, scope, other);
     VISIBLE_ONLY.with(|v| v.set(false));
     r
@@ -259,7 +284,7 @@ fn battery_inner<T: Subject + AllPairs>(ctx: &mut Ctx, x: &T, model: &[bool], fu
     let cap = T::FIXED_CAP;
     let fit = |target: usize| cap.map_or(target, |c| target.min(c));
     let wb = T::WORD_BITS;
-    let mut b = B { x, twin: &twin, fails: vec![], calls: 0, scope };
+    let mut b = B { x, twin: &twin, fails: vec![], calls: 0, scope, full, in_full: false };
 
     // ---------------- observers (lite) ----------------
     b.d(G::Query, "is_zero", |y| y.is_zero());
@@ -282,7 +307,8 @@ fn battery_inner<T: Subject + AllPairs>(ctx: &mut Ctx, x: &T, model: &[bool], fu
         }
     }
 
-    if full {
+    b.in_full = true;
+    if full || scope.is_some() {
         // ---------------- observers (full) ----------------
         b.d(G::Iter, "is_empty", |y| y.is_empty());
         b.d(G::Iter, "first", |y| y.first());
